@@ -26,6 +26,10 @@ inductive Fr
   | qsw
 deriving DecidableEq, Repr
 
+def Fr.isReg : Fr → Bool
+  | .reg _ => true
+  | _ => false
+
 /-- symbolic content of a coordinate / covariance buffer -/
 inductive Val
   | init (k : Nat)
@@ -187,6 +191,7 @@ def covSetFrame (h : Heap) (c : Nat) (fr : Fr) : Res Unit :=
     if fr = cfr then (h, .ok ())
     else if fr = .hill then (h, .error .value)
     else if cfr = .hill ∧ ¬ (ofr = .hill ∧ (fr = .tnw ∨ fr = .qsw)) then (h, .error .attr)  -- `"QSW".convert_to`
+    else if ofr = .hill ∧ fr.isReg = true then (h, .error .attr)      -- idem, parent frame → target
     else
       match getSV h orb with
       | none => (h, .error .bad)
